@@ -51,6 +51,7 @@ _prop('C15',
              rules_validator.rule_ag_vocab, rules_validator.rule_or_aggr,
              rules_validator.rule_bounds,
              rules_validator.rule_shape_crosscheck,
+             rules_validator.rule_shape_is_pair,
              rules_validator.rule_records, rules_validator.rule_json_keys],
       minima={'OR-REPORT': 15, 'AG-VALID': 24, 'AG-VOCAB': 2, 'OR-AGGR': 7,
               'AX-BOUNDS': 8, 'AX-SHAPE': 6, 'SB-RECORDS': 8,
